@@ -15,3 +15,4 @@ import RustCcModel.Properties.C03
 #print axioms RustCc.C03.released_box_has_no_live_value
 #print axioms RustCc.C03.free_only_after_value_gone
 #print axioms RustCc.C03.owned_is_dead
+#print axioms RustCc.C03.dropped_value_released_when_idle
